@@ -131,8 +131,9 @@ class Gen:
             return ['expr', f'({self.expr(2)})']     # parenthesised: `x == 1` as a statement would read as an assignment
         if c < 0.55:
             nb = r.choice([1, 1, 2, 3])
-            branches = [[self.expr(2), self.body(depth + 1, in_loop, in_func)] for _ in range(nb)]
-            els = self.body(depth + 1, in_loop, in_func) if r.random() < 0.5 else None
+            # a branch body may be EMPTY (the lowering then emits two jumps in a row)
+            branches = [[self.expr(2), self.body(depth + 1, in_loop, in_func) if r.random() > 0.12 else []] for _ in range(nb)]
+            els = (self.body(depth + 1, in_loop, in_func) if r.random() > 0.12 else []) if r.random() < 0.5 else None
             return ['if', branches, els]
         if c < 0.75:
             # bounded while: a fresh counter variable guarantees progress
@@ -184,22 +185,30 @@ def gen_program(r, max_depth=4, nfuncs=None, allow_while_continue=False):
     for i in range(nglob + 1):
         for (name, nargs, last), slot in zip(pending, slots):
             if slot == i:
-                args = [f'p{j}' for j in range(nargs)]
+                # parameter names collide on purpose with host globals and script variables: a missing argument must read as null,
+                # never as the global of the same name
+                cand = r.sample(['g0', 'g1', 'va', 'vb'], 4)
+                args = [cand[j] if r.random() < 0.5 else f'p{j}' for j in range(nargs)]
                 gf = Gen(r, funcs[funcs.index((name, nargs, last)) + 1:], max_depth, allow_while_continue)     # only later functions: no recursion
                 gf.counter = g.counter + 100 * (1 + funcs.index((name, nargs, last)))
                 body = gf.body(1, None, True, r.randint(1, 3))
                 # recursion guard: functions only call functions with a larger index or themselves under a depth counter
-                body = [['if', [['depth > 3', [['return', '0']]]], None], ['assign', 'depth2', 'depth']] + body
+                body = [['if', [['depth > 3', [['return', '0']]]], None], ['assign', 'depth2', 'depth']] + \
+                    [['expr', f"systemLog('{name} {a}:' + systemType({a}))"] for a in args] + body
                 prog.append(['function', name, args, last, body])
         if i < nglob:
             prog.append(g.stmt(0, None, False))
     prog.append(g.log())
+    # every function is also called with one argument fewer than it has parameters (and with one more)
+    for name, nargs, last in funcs:
+        for n in {max(0, nargs - 1), nargs + 1}:
+            prog.append(['expr', f"systemLog('{name}/{n} ' + systemType({name}(" + ', '.join(g.expr(0) for _ in range(n)) + ')))'])
     return flatten_blocks(prog)
 
 
 # ------------------------------------------------------------------ exhaustive nesting shapes
 CONSTRUCTS = [('if', 0), ('ifelse', 0), ('ifelse', 1), ('ifelif', 0), ('ifelif', 1), ('ifelifelse', 0), ('ifelifelse', 1),
-              ('ifelifelse', 2), ('while', 0), ('for', 0), ('fori', 0)]
+              ('ifelifelse', 2), ('while', 0), ('for', 0), ('fori', 0), ('ifempty_elif', 1), ('ifempty_else', 1)]
 LOOPFLAGS = ['', 'b', 'c', 'bc']
 
 
@@ -227,6 +236,10 @@ def build_shape(chain, flags, level=0, in_loop=None):
     if cons == 'ifelifelse':
         return [['if', [[f'c{level}', child if pos == 0 else other('t')], [f'd{level}', child if pos == 1 else other('u')]],
                  child if pos == 2 else other('e')]]
+    if cons == 'ifempty_elif':       # empty first branch: `if c: / elif d: child / endif`
+        return [['if', [[f'c{level}', []], [f'd{level}', child]], None]]
+    if cons == 'ifempty_else':
+        return [['if', [[f'c{level}', []]], child]]
     if cons == 'while':
         return [['assign', f'k{level}', '0'],
                 ['while', f'k{level} < 3', [['assign', f'k{level}', f'k{level} + 1']] + extra + child]]
